@@ -12,7 +12,10 @@
   history, `mStep`/`mRun` = MultiObjectiveProgressTracker.evaluate with its `pareto_front` list,
   `runSearch` = the four search loops).  All theorems are for ALL histories (no length bound),
   all budgets, all algorithms.  Fitness values are an arbitrary linear order (`Int`); NaN is
-  outside the model.
+  outside the model.  `C12_tracker_order_only`: under any strictly monotone re-scaling of the
+  fitness values the tracker reports the same best individual and raises the same flags -- it sees
+  the order of the values, not their distance (what the harness's neighbouring-float, huge-magnitude
+  and +-inf histories rely on when they are judged on ranks).
 -/
 import GEVerif.Model.Eval
 import GEVerif.Lemmas.Search
@@ -469,5 +472,52 @@ example : runSearch (.hillClimbing 2) (.evaluations 4) (.single none) ⟨[], 0, 
 -- the same run on a multi-objective tracker returns the head of the Pareto list
 example : (runSearch .randomSearch (.evaluations 3) (.multi []) ⟨[], 0, []⟩
     (fun i => ⟨[⟨i, (if i = 1 then 7 else 2), 0⟩], 1, []⟩) 10).map (·.2.2) = some (some ⟨1, 7, 0⟩) := by decide
+
+/-! ## only the ORDER of the fitness values matters -/
+
+def Reg.rescale (f : Int → Int) (r : Reg) : Reg := { r with agg := f r.agg }
+
+def StrictMono (f : Int → Int) : Prop := ∀ a b, a < b → f a < f b
+
+theorem StrictMono.lt_iff {f : Int → Int} (hf : StrictMono f) (a b : Int) : f a < f b ↔ a < b := by
+  constructor
+  · intro h
+    rcases Int.lt_trichotomy a b with h1 | h1 | h1
+    · exact h1
+    · subst h1; omega
+    · have := hf b a h1; omega
+  · exact hf a b
+
+private theorem sStep_rescale {f : Int → Int} (hf : StrictMono f) (b : Option Reg) (r : Reg) :
+    sStep (b.map (Reg.rescale f)) (Reg.rescale f r) = ((sStep b r).1.map (Reg.rescale f), (sStep b r).2) := by
+  cases b with
+  | none => simp [sStep]
+  | some b =>
+    have hiff : (Reg.rescale f b).agg < (Reg.rescale f r).agg ↔ b.agg < r.agg := hf.lt_iff _ _
+    by_cases h : b.agg < r.agg
+    · have h' := hiff.2 h
+      simp [sStep, isBetter, h, h']
+    · have h' : ¬ (Reg.rescale f b).agg < (Reg.rescale f r).agg := fun c => h (hiff.1 c)
+      simp [sStep, isBetter, h, h']
+
+private theorem sRun_rescale {f : Int → Int} (hf : StrictMono f) (b : Option Reg) (h : List Reg) :
+    sRun (b.map (Reg.rescale f)) (h.map (Reg.rescale f)) = ((sRun b h).1.map (Reg.rescale f), (sRun b h).2) := by
+  induction h generalizing b with
+  | nil => simp [sRun]
+  | cons r rs ih =>
+    simp only [List.map_cons, sRun, sStep_rescale hf, ih]
+
+/-- **The single-objective tracker sees the ORDER of the fitness values only**: under any strictly monotone re-scaling of
+the aggregates (neighbouring floats, values in the billions) it reports the same individual as best after every
+registration history and raises exactly the same `is_best` flags. -/
+theorem C12_tracker_order_only {f : Int → Int} (hf : StrictMono f) (h : List Reg) :
+    (sRun none (h.map (Reg.rescale f))).1 = (sRun none h).1.map (Reg.rescale f) ∧
+    (sRun none (h.map (Reg.rescale f))).2 = (sRun none h).2 := by
+  have := sRun_rescale hf none h
+  simp only [Option.map_none] at this
+  rw [this]
+  exact ⟨rfl, rfl⟩
+
+example : StrictMono (fun a => 5 * a - 2) := by intro a b h; show 5 * a - 2 < 5 * b - 2; omega
 
 end GEVerif.C12
